@@ -854,7 +854,10 @@ func (s *scanner) ReadStreamData(dict Dict) (stm *Stream, err error) {
 		if err != nil {
 			return nil, err
 		}
-		l = eolPos - start
+		// eolPos is the position of the last byte of the end-of-line marker
+		// in front of the keyword; that marker (\n, \r or \r\n) is not part of
+		// the data, everything before it is
+		l = eolPos + 1 - start
 		l, err = trimTrailingEOL(origReader, start, l)
 		if err != nil {
 			return nil, err
